@@ -340,25 +340,32 @@ def _analysis_intensities(ct, tier, seed):
         L.set_field_type('angle')
         L.add_field(y=0.0)
         L.add_field(y=12.0)
-        L.add_wavelength(0.55, is_primary=True)
+        # three wavelengths, the primary one in the middle: absorption exp(-4 pi k d / lambda) makes every wavelength's
+        # intensities different, so an analysis that reuses one wavelength's intensities for another is seen (round 7)
+        WL = (0.45, 0.55, 0.65)
+        for w_ in WL:
+            L.add_wavelength(w_, is_primary=(w_ == 0.55))
         npts = 7
         rf = analysis.RayFan(L, num_points=npts)
         P = np.linspace(-1, 1, npts)
         for f in L.fields.get_field_coords():
-            d = rf.data[str(f)][str(0.55)]
-            ix = [float(L.trace_generic(float(f[0]), float(f[1]), float(p_), 0.0, 0.55).i[0]) for p_ in P]
-            iy = [float(L.trace_generic(float(f[0]), float(f[1]), 0.0, float(p_), 0.55).i[0]) for p_ in P]
-            cases += 1
-            note('C16.runtime.ray_fan_intensities_are_those_of_its_rays', bool(np.allclose(d['intensity_x'], ix, rtol=1e-12, atol=0)) and bool(np.allclose(d['intensity_y'], iy, rtol=1e-12, atol=0)),
-                 'field %s: x fan %s vs %s' % (f, np.round(d['intensity_x'], 3), np.round(ix, 3)), {'lens': par, 'field': list(f)})
+            for w_ in WL:
+                d = rf.data[str(f)][str(w_)]
+                ix = [float(L.trace_generic(float(f[0]), float(f[1]), float(p_), 0.0, w_).i[0]) for p_ in P]
+                iy = [float(L.trace_generic(float(f[0]), float(f[1]), 0.0, float(p_), w_).i[0]) for p_ in P]
+                cases += 1
+                note('C16.runtime.ray_fan_intensities_are_those_of_its_rays', bool(np.allclose(d['intensity_x'], ix, rtol=1e-12, atol=0)) and bool(np.allclose(d['intensity_y'], iy, rtol=1e-12, atol=0)),
+                     'field %s wavelength %s: x fan %s vs %s' % (f, w_, np.round(d['intensity_x'], 3), np.round(ix, 3)), {'lens': par, 'field': list(f), 'wavelength': w_})
         sd = analysis.SpotDiagram(L, num_rings=3, distribution='hexapolar')
         from optiland.distribution import create_distribution
         dist = create_distribution('hexapolar')
         dist.generate_points(3)
         for k_, f in enumerate(L.fields.get_field_coords()):
-            ii = [float(L.trace_generic(float(f[0]), float(f[1]), float(px), float(py), 0.55).i[0]) for px, py in zip(dist.x, dist.y)]
-            cases += 1
-            note('C16.runtime.spot_diagram_intensities_are_those_of_its_rays', bool(np.allclose(sd.data[k_][0][2], ii, rtol=1e-12, atol=0)), 'field %s' % (f,), {'lens': par, 'field': list(f)})
+            for j_, w_ in enumerate(WL):
+                ii = [float(L.trace_generic(float(f[0]), float(f[1]), float(px), float(py), w_).i[0]) for px, py in zip(dist.x, dist.y)]
+                cases += 1
+                note('C16.runtime.spot_diagram_intensities_are_those_of_its_rays', bool(np.allclose(sd.data[k_][j_][2], ii, rtol=1e-12, atol=0)),
+                     'field %s wavelength %s: reported %s, traced %s' % (f, w_, np.round(sd.data[k_][j_][2][:4], 4), np.round(ii[:4], 4)), {'lens': par, 'field': list(f), 'wavelength': w_})
     return {'contract': ct.name, 'functions': ct.functions, 'props': ct.props,
             'symbolic': {'clauses': clauses, 'paths': 0, 'errors': [], 'solver_s': 0.0, 'samples': [], 'wd_assumed': [], 'assumed': []},
             'numeric': {'accepted': cases, 'rejected': 0, 'failures': fails[:10], 'concolic_agree': 0, 'encoder_mismatches': [],
